@@ -364,18 +364,39 @@ def run(ctx):
     ctx.bounds.update({'proxy': 'one serialized message handled from every state with 0..2 pending requests (tags symbolic, ordered, within the counter; each port open or closed; cleanup cursor absent or symbolic); '
                                 'inductive: the representation invariant is re-established by every step',
                        'session': 'one node frame on an authenticated session (target advertised); the reply task of a Call with its receiver answering, failing or timing out',
-                       'outside': 'everything else in C20: per-sender order across two nodes, proxies for every advertised actor, group mirroring, proxies stopping on disconnect, '
+                       'outside': 'the end-to-end composition of C20 over two nodes and a byte stream: per-sender order across two nodes, the announcing side (which local actors / group '
+                                  'changes a session advertises to its peer), proxies stopping when the session closes (they are linked children of the session: C05); '
                                   'more than 16 pending requests per cleanup round, wrap-around of the 64-bit tag counter'})
     ctx.assumptions += ['BTreeMap contract (ordered map); ActorRef::cast to the session succeeds or fails arbitrarily; RpcReplyPort::is_closed is arbitrary but fixed per port within a step',
                         'the message_tag counter is below 2^63 (no wrap-around within the claim)']
     check_proxy(ctx, prog)
     check_session(ctx, prog)
+    import C20_mirror
+    import C20_mirror_replay
+    C20_mirror.check(ctx, prog)
+    try:
+        bad, n = C20_mirror_replay.battery()
+        ctx.translator_validated += n
+        if bad:
+            rec = {'name': 'mirror.native_battery', 'group': 'C20.mirror', 'solver_s': 0.0, 'status': 'cex'}
+            ctx.obligations.append(rec)
+            ctx.handle_cex(rec['name'], 'C20.mirror.native', None, lambda _m: {'replayed': True, 'detail': 'real handle_control on Spawn / Terminate / PgJoin / PgLeave: %s' % bad[:3], 'replay': {'which': 'mirror_battery'}}, rec)
+    except RuntimeError as e:
+        ctx.inconclusive.append('mirror native battery unavailable: %s' % str(e)[-300:])
 
 
 def replay_file(path):
     import json
     import C20_replay
     d = json.load(open(path))
+    if d['replay'].get('which') in ('mirror', 'mirror_battery'):
+        import C20_mirror_replay
+        bad, _n = C20_mirror_replay.battery()
+        if d['replay']['which'] == 'mirror':
+            rp = d['replay']['rp']
+            bad += C20_mirror_replay.evaluate(rp['have'], rp['kind'], rp['list'])[0]
+        print('native handle_control mirror arms:', bad)
+        return 1 if bad else 0
     r = C20_replay.replay(d['replay']['which'], d['replay'].get('args', {}))
     print(r['detail'])
     return 1 if r['replayed'] else 0
